@@ -3,6 +3,7 @@ import Hive.Proofs.KVConcHist
 import Hive.Proofs.KVLin
 import Hive.Gen.C05_Skel
 import Hive.Gen.C05_Src
+import Hive.Gen.C05_WrapSkel
 /-!
 # C05 — KVStore operations are linearizable under concurrent use
 
@@ -215,6 +216,54 @@ theorem C05_flag_call_contract (st : SeqSt) :
     Lin.hstep st (.data .nop) = (st, if st.closed then .closed else .ok) := by
   obtain ⟨m, c⟩ := st
   cases c <;> simp [Lin.hstep, DOp.apply]
+
+theorem effsOf_append_load (l : List Instr) : effsOf (l ++ [.load]) = effsOf l := by
+  induction l with
+  | nil => rfl
+  | cons i rest ih => cases i <;> simp [effsOf, ih]
+
+/-- **The flushkv wrapper inside the protocol model.**  A mutator of `flushkv` (`Set`, `Delete`, `DeletePrefix`, `Clear`, batch
+`Commit`) executes the code of the wrapped mutator followed by ONE more instruction: `load`, the `closed.Load()` of the
+`Flush()` that `flushAfterMutation` issues and whose ErrStoreClosed it drops (fix b5d5462).  It makes exactly the accesses
+of the wrapped mutator, so by `C05_linearizable` (2) its response is the answer of the wrapped mutation's last access (or
+`closed` when its OWN flag load failed - then no access and no `Flush()` follow): a `Close` that falls between the
+mutation and the `Flush()` cannot change the answer.  `load` reads the flag and drops the outcome: the transition
+changes nothing shared and does not depend on the flag.  Every theorem of this file (`C05_linearizable`,
+`C05_linearizable_close`, `C05_checker_complete_on_model`, `C05_deadlock_free`, `C05_well_locked`, ...) quantifies over scripts
+containing these calls: they are the linearizability / deadlock-freedom theorems of a store behind flushkv. -/
+theorem C05_flushkv_calls (v b : Nat) (r k x p : Bytes) (ws : List Write) :
+    compile (.fset v r k x) = compile (.set v r k x) ++ [.load] ∧
+    compile (.fdel v r k) = compile (.del v r k) ++ [.load] ∧
+    compile (.fdelp v r p) = compile (.delp v r p) ++ [.load] ∧
+    compile (.fclear v r) = compile (.clear v r) ++ [.load] ∧
+    compile (.fcommit b v r ws) = compile (.commit b v r ws) ++ [.load] ∧
+    effsOf (compile (.fset v r k x)) = effsOf (compile (.set v r k x)) ∧
+    effsOf (compile (.fdel v r k)) = effsOf (compile (.del v r k)) ∧
+    effsOf (compile (.fdelp v r p)) = effsOf (compile (.delp v r p)) ∧
+    effsOf (compile (.fclear v r)) = effsOf (compile (.clear v r)) ∧
+    effsOf (compile (.fcommit b v r ws)) = effsOf (compile (.commit b v r ws)) ∧
+    (∀ (s : Shared) (t : Thread) (op : COp) (rest : List Instr), t.cur = some op → t.code = .load :: rest →
+      step s t = [(s, { t with code := rest })]) := by
+  have hc : compile (.fcommit b v r ws) = compile (.commit b v r ws) ++ [.load] := by
+    simp [compile, List.append_assoc]
+  refine ⟨rfl, rfl, rfl, rfl, hc, rfl, rfl, rfl, rfl, ?_, ?_⟩
+  · rw [hc, effsOf_append_load]
+  · intro s t op rest hcur hcode
+    simp [step, hcur, hcode]
+
+/-- **The debug wrapper inside the protocol model.**  `debug`'s access callback runs before the wrapped call and outside
+every lock (`C05_source_debug`, `C05_skeleton_debug`): it is user code, modelled as a call of its own of the same goroutine
+with no instruction at all - it touches neither flag, nor lock, nor map, and has no linearisation point; the wrapped call
+follows it in the goroutine's script (whatever the callback does with the store is further calls of that goroutine, which
+the scripts - arbitrary - contain).  A call through `debug` (through `flushkv∘debug`, `debug∘flushkv`) is therefore the script
+fragment `[callback, op]` (`[callback, f-op]`), and all theorems of this file cover it. -/
+theorem C05_debug_callback :
+    compile .callback = [] ∧ effsOf (compile .callback) = [] ∧
+    (∀ (s : Shared) (t : Thread), t.cur = some .callback → t.code = [] →
+      step s t = [(s.log (.ret t.tid t.idx t.answer), { t with cur := none, idx := t.idx + 1, res := none })]) := by
+  refine ⟨rfl, rfl, ?_⟩
+  intro s t hcur hcode
+  simp [step, hcur, hcode]
 
 /-- Every call is compiled to well-bracketed code: locks acquired in the order batch < view < map
 and never twice, every release matches, the flag is loaded with no lock held, every access happens
@@ -435,6 +484,109 @@ theorem C05_source_flushkv_forwarders :
     src_flush_batch_Cancel = ["func (b *batchedMutations) Cancel() {", "b.batched.Cancel()", "}"] :=
   ⟨rfl, rfl, rfl, rfl, rfl, rfl, rfl, rfl, rfl, rfl⟩
 
+/-- …the two remaining methods of flushkv: `WithExtendedRealm` is `WithRealm` on the concatenated realm, `Realm` forwards. -/
+theorem C05_source_flushkv_realm :
+    src_flushKVStore_WithExtendedRealm = ["func (s *flushKVStore) WithExtendedRealm(realm kvstore.Realm) (kvstore.KVStore, error) {",
+      "return s.WithRealm(byteutils.ConcatBytes(s.Realm(), realm))", "}"] ∧
+    src_flushKVStore_Realm = ["func (s *flushKVStore) Realm() kvstore.Realm {", "return s.store.Realm()", "}"] := ⟨rfl, rfl⟩
+
+/-- The body every callback-reporting method of the debug wrapper has (after its signature line): "if a callback is set and
+the command passes the filter, call it; then return what the wrapped method returns". -/
+def dbgBody (recv cmd args meth params : String) : List String :=
+  ["if " ++ recv ++ ".accessCallback != nil && " ++ recv ++ ".accessCallbackCommandsFilter.HasBits(" ++ cmd ++ "Command) {",
+   recv ++ ".accessCallback(" ++ cmd ++ "Command" ++ args ++ ")", "}",
+   "return " ++ recv ++ ".underlying." ++ meth ++ "(" ++ params ++ ")", "}"]
+
+/-- **The debug wrapper** (complete source text, regenerated): the eight store methods and the batch's `Set` / `Delete` call the
+access callback FIRST (if set and not filtered) and then forward to the wrapped store - nothing is done after the wrapped call,
+nothing between callback and call, no lock, no state; `Flush`, `Close`, `Realm`, batch `Cancel` / `Commit` forward without callback;
+`WithRealm` / `Batched` / `New` wrap the result and copy callback + filter (immutable after construction). -/
+theorem C05_source_debug :
+    src_debugStore_Get.tail = dbgBody "s" "Get" ", key" "Get" "key" ∧
+    src_debugStore_Has.tail = dbgBody "s" "Has" ", key" "Has" "key" ∧
+    src_debugStore_Set.tail = dbgBody "s" "Set" ", key, value" "Set" "key, value" ∧
+    src_debugStore_Delete.tail = dbgBody "s" "Delete" ", key" "Delete" "key" ∧
+    src_debugStore_DeletePrefix.tail = dbgBody "s" "DeletePrefix" ", prefix" "DeletePrefix" "prefix" ∧
+    src_debugStore_Clear.tail = dbgBody "s" "Clear" "" "Clear" "" ∧
+    src_debugStore_Iterate.tail = dbgBody "s" "Iterate" ", prefix" "Iterate" "prefix, kvConsumerFunc, iterDirection..." ∧
+    src_debugStore_IterateKeys.tail = dbgBody "s" "IterateKeys" ", prefix" "IterateKeys" "prefix, consumerFunc, iterDirection..." ∧
+    src_debug_batch_Set.tail = dbgBody "b" "Set" ", key, value" "Set" "key, value" ∧
+    src_debug_batch_Delete.tail = dbgBody "b" "Delete" ", key" "Delete" "key" ∧
+    src_debugStore_Flush = ["func (s *debugStore) Flush() error {", "return s.underlying.Flush()", "}"] ∧
+    src_debugStore_Close = ["func (s *debugStore) Close() error {", "return s.underlying.Close()", "}"] ∧
+    src_debugStore_Realm = ["func (s *debugStore) Realm() kvstore.Realm {", "return s.underlying.Realm()", "}"] ∧
+    src_debugStore_WithExtendedRealm = ["func (s *debugStore) WithExtendedRealm(realm kvstore.Realm) (kvstore.KVStore, error) {",
+      "return s.WithRealm(byteutils.ConcatBytes(s.Realm(), realm))", "}"] ∧
+    src_debug_batch_Cancel = ["func (b *batchedMutations) Cancel() {", "b.underlying.Cancel()", "}"] ∧
+    src_debug_batch_Commit = ["func (b *batchedMutations) Commit() error {", "return b.underlying.Commit()", "}"] ∧
+    src_debugStore_WithRealm = ["func (s *debugStore) WithRealm(realm kvstore.Realm) (kvstore.KVStore, error) {",
+      "storeWithRealm, err := s.underlying.WithRealm(realm)", "if err != nil {", "return nil, err", "}", "return &debugStore{",
+      "underlying: storeWithRealm,", "accessCallback: s.accessCallback,", "accessCallbackCommandsFilter: s.accessCallbackCommandsFilter,",
+      "}, nil", "}"] ∧
+    src_debugStore_Batched = ["func (s *debugStore) Batched() (kvstore.BatchedMutations, error) {",
+      "batchedMutation, err := s.underlying.Batched()", "if err != nil {", "return nil, err", "}", "return &batchedMutations{",
+      "underlying: batchedMutation,", "accessCallback: s.accessCallback,", "accessCallbackCommandsFilter: s.accessCallbackCommandsFilter,",
+      "}, nil", "}"] ∧
+    src_debug_New = ["func New(store kvstore.KVStore, callback AccessCallback, commandsFilter ...Command) kvstore.KVStore {",
+      "var accessCallbackCommandsFilter Command", "if len(commandsFilter) == 0 {", "accessCallbackCommandsFilter = AllCommands",
+      "} else {", "for _, filterCommand := range commandsFilter {", "accessCallbackCommandsFilter |= filterCommand", "}", "}",
+      "return &debugStore{", "underlying: store,", "accessCallback: callback,",
+      "accessCallbackCommandsFilter: accessCallbackCommandsFilter,", "}", "}"] := by decide
+
+/-! ### Regenerated tie: call skeletons of EVERY method of the two wrappers (`Hive/Gen/C05_WrapSkel.lean`)
+
+Which method of the wrapped store a wrapper method calls, in which order, behind which early return - what `compile` of the
+wrapper calls mirrors: flushkv mutator = wrapped mutator, early return on its error, then `flushAfterMutation` (= `Flush()`,
+`fwriteCode` / `fcommit`: the trailing `load`); debug method = filter test, callback (`COp.callback`), wrapped method. -/
+open Hive.Gen.C05WrapSkel
+
+/-- The mutators of flushkv (what `fset`, `fdel`, `fdelp`, `fclear`, `fcommit` mirror). -/
+theorem C05_skeleton_flushkv_mutators :
+    Flush.skel_flushAfterMutation = ["call store.Flush", "if{", "return", "}if", "return"] ∧
+    [Flush.skel_flushKVStore_Set, Flush.skel_flushKVStore_Delete, Flush.skel_flushKVStore_DeletePrefix, Flush.skel_flushKVStore_Clear] =
+      ["Set", "Delete", "DeletePrefix", "Clear"].map
+        (fun m => ["call s.store." ++ m, "if{", "return", "}if", "helper flushAfterMutation", "return"]) ∧
+    Flush.skel_batchedMutations_Commit = ["call b.batched.Commit", "if{", "return", "}if", "helper flushAfterMutation", "return"] := by
+  decide
+
+/-- Everything else of flushkv forwards: one call of the wrapped method (for `WithRealm` / `Batched` with the early return on its
+error before the result is wrapped); the two struct types hold the wrapped store (and batch) and nothing else - no lock, no flag. -/
+theorem C05_skeleton_flushkv_forwarders :
+    [Flush.skel_flushKVStore_Get, Flush.skel_flushKVStore_Has, Flush.skel_flushKVStore_Iterate, Flush.skel_flushKVStore_IterateKeys,
+      Flush.skel_flushKVStore_Flush, Flush.skel_flushKVStore_Close, Flush.skel_flushKVStore_Realm] =
+      ["Get", "Has", "Iterate", "IterateKeys", "Flush", "Close", "Realm"].map (fun m => ["call s.store." ++ m, "return"]) ∧
+    Flush.skel_flushKVStore_WithRealm = ["call s.store.WithRealm", "if{", "return", "}if", "return"] ∧
+    Flush.skel_flushKVStore_Batched = ["call s.store.Batched", "if{", "return", "}if", "return"] ∧
+    Flush.skel_flushKVStore_WithExtendedRealm = ["call s.Realm", "call s.WithRealm", "return"] ∧
+    Flush.skel_New = ["return"] ∧
+    Flush.skel_batchedMutations_Set = ["call b.batched.Set", "return"] ∧
+    Flush.skel_batchedMutations_Delete = ["call b.batched.Delete", "return"] ∧
+    Flush.skel_batchedMutations_Cancel = ["call b.batched.Cancel"] ∧
+    Flush.skel_type_flushKVStore = ["struct", "store kvstore.KVStore"] ∧
+    Flush.skel_type_batchedMutations = ["struct", "store kvstore.KVStore", "batched kvstore.BatchedMutations"] := by decide
+
+/-- The debug wrapper: filter test, callback, wrapped method - in this order, nothing after the wrapped call - for the eight
+reporting store methods and the batch's `Set` / `Delete`; the rest forwards; the struct types hold the wrapped object, the
+callback and the filter and nothing else. -/
+theorem C05_skeleton_debug :
+    [Debug.skel_debugStore_Get, Debug.skel_debugStore_Has, Debug.skel_debugStore_Set, Debug.skel_debugStore_Delete,
+      Debug.skel_debugStore_DeletePrefix, Debug.skel_debugStore_Clear, Debug.skel_debugStore_Iterate, Debug.skel_debugStore_IterateKeys] =
+      ["Get", "Has", "Set", "Delete", "DeletePrefix", "Clear", "Iterate", "IterateKeys"].map
+        (fun m => ["call s.accessCallbackCommandsFilter.HasBits", "if{", "call s.accessCallback", "}if", "call s.underlying." ++ m, "return"]) ∧
+    [Debug.skel_batchedMutations_Set, Debug.skel_batchedMutations_Delete] = ["Set", "Delete"].map
+        (fun m => ["call b.accessCallbackCommandsFilter.HasBits", "if{", "call b.accessCallback", "}if", "call b.underlying." ++ m, "return"]) ∧
+    [Debug.skel_debugStore_Flush, Debug.skel_debugStore_Close, Debug.skel_debugStore_Realm] =
+      ["Flush", "Close", "Realm"].map (fun m => ["call s.underlying." ++ m, "return"]) ∧
+    Debug.skel_batchedMutations_Cancel = ["call b.underlying.Cancel"] ∧
+    Debug.skel_batchedMutations_Commit = ["call b.underlying.Commit", "return"] ∧
+    Debug.skel_debugStore_WithRealm = ["call s.underlying.WithRealm", "if{", "return", "}if", "return"] ∧
+    Debug.skel_debugStore_Batched = ["call s.underlying.Batched", "if{", "return", "}if", "return"] ∧
+    Debug.skel_debugStore_WithExtendedRealm = ["call s.Realm", "call s.WithRealm", "return"] ∧
+    Debug.skel_type_debugStore = ["struct", "underlying kvstore.KVStore", "accessCallback AccessCallback",
+      "accessCallbackCommandsFilter Command"] ∧
+    Debug.skel_type_batchedMutations = ["struct", "underlying kvstore.BatchedMutations", "accessCallback AccessCallback",
+      "accessCallbackCommandsFilter Command"] := by decide
+
 /-! ### the hypotheses are satisfiable: a concrete run -/
 
 /-- Two goroutines (a writer through the view of realm `01`, a reader through the root view)
@@ -479,6 +631,27 @@ example : ((runSched sys (initCfg sampleScripts2) sampleSched2).2.all (fun t => 
       [(1, 0, .ok), (0, 0, .ok), (0, 1, .closed), (0, 2, .closed), (0, 3, .ok), (0, 4, .closed), (1, 1, .closed)] ∧
     Lin.validate (histOf (runSched sys (initCfg sampleScripts2) sampleSched2).1.tr).toArray
       (witness (histOf (runSched sys (initCfg sampleScripts2) sampleSched2).1.tr)) = true := by
+  decide
+
+/-- A third run, through the wrappers: goroutine 0 issues a `Set` through `flushkv∘debug` (callback, then the flushkv mutator),
+goroutine 1 closes the store - scheduled BETWEEN the write and the `Flush()` of the flushkv `Set` - and then reads. -/
+def sampleScripts3 : List (List COp) := [[.callback, .fset 1 [1] [2] [3]], [.close, .get 0 [] [1, 2]]]
+
+def sampleSched3 : List (Nat × Nat) :=
+  List.replicate 11 (0, 0) ++ List.replicate 3 (1, 0) ++ List.replicate 2 (0, 0) ++ List.replicate 3 (1, 0)
+
+example : Reach sys (initCfg sampleScripts3) (runSched sys (initCfg sampleScripts3) sampleSched3) :=
+  runSched_reach sys _ _
+
+/-- The flushkv `Set` answers `ok` although the store was closed before its `Flush()` (the repaired behaviour: the write took
+effect before the `Close`), the later `Get` answers `closed`; the trace shows the `Close` point between the write's point and
+the response of the `Set`; the witness order validates on the recorded history. -/
+example : (runSched sys (initCfg sampleScripts3) sampleSched3).1.tr =
+    [.inv 0 0 .callback, .ret 0 0 .ok, .inv 0 1 (.fset 1 [1] [2] [3]), .lin 0 1 (.eff (.set [1, 2] [3])) .ok,
+     .inv 1 0 .close, .lin 1 0 .close .ok, .ret 1 0 .ok, .ret 0 1 .ok,
+     .inv 1 1 (.get 0 [] [1, 2]), .lin 1 1 .failClosed .closed, .ret 1 1 .closed] ∧
+    Lin.validate (histOf (runSched sys (initCfg sampleScripts3) sampleSched3).1.tr).toArray
+      (witness (histOf (runSched sys (initCfg sampleScripts3) sampleSched3).1.tr)) = true := by
   decide
 
 end Hive.KV.Conc
